@@ -79,3 +79,19 @@ package tan
 //@ modifies gUnsynced
 //@ ensures result == nil ==> !gUnsynced
 //@ loop 1 invariant gUnsynced ==> syncLog && selected != nil
+
+// ---------------------------------------------------------------- tan record writer: a storage error is never reported as success (C10)
+//@ func (w *writer) getNext [C10]
+//@ trusted chunk framing inherited from pebble's record writer (not verified)
+//@ modifies *w
+//@ func (x singleWriter) Write [C10]
+//@ trusted chunk framing inherited from pebble's record writer (not verified)
+//@ modifies *x.w
+//@ func (w *writer) writePending [C10]
+//@ trusted flushes the pending block to the file and records any error in w.err
+//@ modifies *w
+
+//@ func (w *writer) writeRecord [C10 C04]
+//@ modifies *w
+//@ ensures result1 == nil ==> w.err == nil
+//@ ensures old(w.err) != nil ==> result1 != nil
